@@ -77,15 +77,18 @@ BaseWellFormed == st.k = "base" => Verdict(st.d).accepted
 RulePass(r) ==
   CASE r = 1 -> 0 [] r \in 2..8 -> 1 [] r = 11 -> 2 [] r \in {12, 13, 14, 40, 41, 43, 44} -> 3
     [] r \in 23..31 -> 4 [] r \in 32..35 -> 5 [] r \in {36, 37} -> 6 [] r = 38 -> 7 [] r = 39 -> 8
-    [] r \in 45..49 -> 9 [] r \in {15, 16, 17, 18, 19, 20, 21, 22, 42} -> 11 [] r = 51 -> 12 [] r \in {52, 53} -> 13
+    [] r \in 45..49 -> 9 [] r \in {15, 16, 17, 18, 19, 20, 21, 22, 42} -> 12 [] r = 51 -> 13 [] r \in {52, 53} -> 14
     [] OTHER -> 99
+
+(* a duplicate identifier that only the whole scope shows (through a group, through inheritance) *)
+RulePassOf(s) == IF s.rule = 11 /\ s.site # <<>> /\ s.site[Len(s.site)] = ToString("scope") THEN 11 ELSE RulePass(s.rule)
 
 EditViolates ==
   st.k = "edit" =>
     LET v == Verdict(st.d) IN
     /\ ~v.accepted
-    /\ (v.pass = RulePass(st.rule) => st.rule \in v.codes)
-    /\ v.pass <= RulePass(st.rule)
+    /\ (v.pass = RulePassOf(st) => st.rule \in v.codes)
+    /\ v.pass <= RulePassOf(st)
 
 OkStaysOk == st.k = "ok" => Verdict(st.d).accepted
 
